@@ -10,7 +10,7 @@
    Not covered: libfuncs outside the list; VmRun.v is a hand model of cairo-vm (flat addresses). *)
 From Vmx Require Import VmRun.
 From Spec Require Import Int Ops.
-From Libfuncs Require Import Stmt CStmt UAddSub UAddSubC.
+From Libfuncs Require Import Stmt CStmt UAddSubC UAddSub.
 From GenC03 Require Import W_u8_overflowing_add W_u8_overflowing_sub.
 
 Theorem C06_u8_overflowing_add_sound : uarith_sound uadd 8 code_u8_overflowing_add entry_u8_overflowing_add.
